@@ -166,10 +166,13 @@ def flush (sch : Schema) (w : World) (ids : List Int) : World × Option WErr :=
 
 /-- `obj.flush()` (`Entity.flush`): one queued object is saved on its own — no other pending object is written,
     `cache.modified` stays set; the statement opens the transaction (`start_transaction=True` -> BEGIN IMMEDIATE) -/
-def flushOne (sch : Schema) (w : World) (o : ObjId) (ids : List Int) : World × Option WErr :=
+def flushOne (sch : Schema) (w : World) (o : ObjId) (ids : List Int) (delAll : Bool) : World × Option WErr :=
   if o ≥ w.sess.n then (w, some .badOp)
   else if !((w.sess.obj o).status = .created || (w.sess.obj o).status = .modified || (w.sess.obj o).status = .markedToDelete) then (w, none)
   else if w.pendingSaved then (w, some .assertion)                 -- `assert not cache.saved_objects`
+  -- `if obj._status_ == 'marked_to_delete': cache.flush(); return` (de6b988: the DELETE must not overtake what delete() queued
+  -- before it); `delAll` says whether the tree's Entity.flush has that delegation (read from its source by the engine)
+  else if delAll && (w.sess.obj o).status = .markedToDelete then flush sch w ids
   else ((flushObj sch w o ids).w, (flushObj sch w o ids).err)
 
 /-- `rollback()`: the transaction is rolled back and the cache closed; the next call starts with an empty session -/
@@ -223,7 +226,7 @@ inductive WOp
   | sess (op : Op)             -- create / setAttrs / delete / read (the engine sends only these)
   | fetch (cls : Nat) (pk : KeyVal) (ids : List Int)
   | flush (ids : List Int)
-  | flushOne (o : ObjId) (ids : List Int)
+  | flushOne (o : ObjId) (ids : List Int) (delAll : Bool)
   | commit (ids : List Int)
   | rollback
   | ext (st : ExtStmt)
@@ -252,7 +255,7 @@ def stepW (sch : Schema) (w : World) : WOp → World × Option WErr
       else (w, some .badOp)
   | .fetch c pk ids => fetch sch w c pk ids
   | .flush ids => flush sch w ids
-  | .flushOne o ids => flushOne sch w o ids
+  | .flushOne o ids da => flushOne sch w o ids da
   | .commit ids => commit sch w ids
   | .rollback => (rollback w, none)
   | .ext st => ext sch w st
